@@ -238,7 +238,96 @@ def check_site_separation(rep, rule, by_cache):
                 )
 
 
-def check_memo_keys(ctx, rep, rule, modules, min_sites=1, only_functions=None):
+def _innermost_function(root, target):
+    """the innermost FunctionDef/Lambda of `root` (inclusive) that contains the node `target`"""
+    best = None
+
+    def rec(n, cur):
+        nonlocal best
+        if n is target:
+            best = cur
+            return True
+        for c in ast.iter_child_nodes(n):
+            if rec(c, c if isinstance(c, (ast.FunctionDef, ast.AsyncFunctionDef)) else cur):
+                return True
+        return False
+
+    rec(root, root)
+    return best
+
+
+def check_memo_owner(fi, rep, rule, cache, vals, node):
+    """A memo held outside the object (a closure variable of a decorator, a module-level dict) must not store
+    values computed from the object: `c[o] = handler(self, o)` with `c` shared by all instances hands one
+    instance's result to every other instance."""
+    if cache.startswith("self.") or not cache.isidentifier():
+        return
+    owner = _innermost_function(fi.node, node)
+    if owner is None:
+        return
+    params = [a.arg for a in owner.args.posonlyargs + owner.args.args]
+    if "self" not in params:
+        return
+    local = any(isinstance(n, ast.Name) and isinstance(n.ctx, ast.Store) and n.id == cache for n in ast.walk(owner))
+    if local or cache in params:
+        return
+    uses_self = any(isinstance(n, ast.Name) and n.id == "self" for v in vals for n in ast.walk(v))
+    if uses_self:
+        rep.violation(
+            rule,
+            (fi, node),
+            f"{cache}[...] = {' | '.join(norm(v) for v in vals)}",
+            f"memo `{cache}` lives outside the object (it is not bound in {owner.name} nor an attribute of self) but stores values computed from "
+            "`self`: all instances share one table, so an instance with different state is handed another instance's result",
+        )
+    else:
+        rep.ok(rule, (fi, node), f"memo `{cache}` shared between objects stores values that do not depend on self")
+
+
+def check_singleton_memos(prog, mod, fi, rep, rule):
+    """`if self.X is None: self.X = E` (a memo with the empty key): E may depend on the object only, not on the
+    arguments of the call that happens to fill it"""
+    fn = fi.node
+    params = {a.arg for a in fn.args.posonlyargs + fn.args.args + fn.args.kwonlyargs} - {"self", "cls"}
+    if not params:
+        return 0
+    locs = _fn_locals(fn)
+    defs = _local_defs(fn)
+    n = 0
+    for st in ast.walk(fn):
+        if not isinstance(st, ast.If):
+            continue
+        t = st.test
+        slot = None
+        if isinstance(t, ast.Compare) and len(t.ops) == 1 and isinstance(t.ops[0], ast.Is) and isinstance(t.comparators[0], ast.Constant) and t.comparators[0].value is None:
+            slot = norm(t.left)
+        elif isinstance(t, ast.UnaryOp) and isinstance(t.op, ast.Not) and isinstance(t.operand, ast.Call) and norm(t.operand.func) == "hasattr" and len(t.operand.args) == 2 and isinstance(t.operand.args[1], ast.Constant):
+            slot = f"{norm(t.operand.args[0])}.{t.operand.args[1].value}"
+        if not slot or not slot.startswith("self.") or slot.count(".") != 1:
+            continue
+        for b in st.body:
+            if isinstance(b, (ast.Assign, ast.AnnAssign)):
+                tgts = b.targets if isinstance(b, ast.Assign) else [b.target]
+                if b.value is None or not any(norm(x) == slot for x in tgts):
+                    continue
+                n += 1
+                used, _ = _closure({nm for nm, _ in _uses(b.value, prog, mod, locs)}, defs, prog, mod, locs)
+                bad = sorted(x for x in used if x in params)
+                if bad:
+                    rep.violation(
+                        rule,
+                        (fi, b),
+                        f"{slot} = {norm(b.value)}",
+                        f"{slot} is filled once (guarded by `{norm(t)}`) with a value that depends on the call's argument(s) {bad}: "
+                        "every later call with a different argument is handed the value computed for the first",
+                    )
+                else:
+                    rep.ok(rule, (fi, b), f"lazily filled {slot} depends on the object only")
+    return n
+
+
+def check_memo_keys(ctx, rep, rule, modules, min_sites=1, only_functions=None, owner_only=False):
+    """owner_only: decide only who owns each memo (check_memo_owner), not whether its key covers the inputs"""
     prog = ctx.prog
     n_sites = 0
     for mn in modules:
@@ -252,11 +341,18 @@ def check_memo_keys(ctx, rep, rule, modules, min_sites=1, only_functions=None):
                 if cache.startswith("self.") and len(keys) == 1 and len(vals) == 1 and isinstance(vals[0], ast.Call):
                     owner = fi.qualname.rsplit(".", 1)[0]
                     by_cache.setdefault((owner, cache), []).append((fi, node, keys[0], norm(vals[0].func), _fn_locals(fi.node)))
-        check_site_separation(rep, rule, by_cache)
+        if not owner_only:
+            check_site_separation(rep, rule, by_cache)
         for fi in funcs:
             if only_functions and fi.qualname not in only_functions:
                 continue
+            if owner_only:
+                for cache, keys, vals, node in find_memo_sites(fi):
+                    n_sites += 1
+                    check_memo_owner(fi, rep, rule, cache, vals, node)
+                continue
             n_sites += check_persistent_caches(prog, mod, fi, rep, rule)
+            n_sites += check_singleton_memos(prog, mod, fi, rep, rule)
             sites = find_memo_sites(fi)
             if not sites:
                 continue
@@ -264,6 +360,7 @@ def check_memo_keys(ctx, rep, rule, modules, min_sites=1, only_functions=None):
             defs = _local_defs(fi.node)
             for cache, keys, vals, node in sites:
                 n_sites += 1
+                check_memo_owner(fi, rep, rule, cache, vals, node)
                 key_names, key_projs = set(), set()
                 for k in keys:
                     for nm, proj in _uses(k, prog, mod, locs):
@@ -337,6 +434,39 @@ class Alg:
     def bad_shared_b(self, o, n):
         return self._rules_cache.setdefault((Alg, n), RulesB(n))(o)
 
+    def bad_shared_between_objects(handler):
+        c = {}
+
+        def wrapped(self, o):
+            r = c.get(o)
+            if r is None:
+                r = handler(self, o)
+                c[o] = r
+            return r
+
+        return wrapped
+
+    def good_owned_by_object(handler):
+        def wrapped(self, o):
+            c = getattr(self, "_memo")
+            r = c.get(o)
+            if r is None:
+                r = handler(self, o)
+                c[o] = r
+            return r
+
+        return wrapped
+
+    def bad_singleton(self, o):
+        if self._K is None:
+            self._K = make(domain_of(o))
+        return self._K
+
+    def good_singleton(self, o):
+        if self._Id is None:
+            self._Id = make(self._dim)
+        return self._Id * o
+
     def bad_built_in_place(self, element, op):
         ends = self._ends.get(element)
         if ends is None:
@@ -349,8 +479,8 @@ class Alg:
 '''
 
 
-def memo_rule(ctx, rep, rule, modules, min_sites=0):
-    """MEMO-KEY over the given modules + a positive control that must be flagged on every run"""
+def positive_control(ctx):
+    """the rule must flag exactly the bad functions of POSITIVE on every run"""
     from .model import AnalysisError
     from .report import Report
 
@@ -361,8 +491,14 @@ def memo_rule(ctx, rep, rule, modules, min_sites=0):
     probe = Report("probe")
     check_memo_keys(ctx, probe, "probe", [name], min_sites=0)
     flagged = {f.scope.split(".")[-1] for f in probe.findings}
-    if flagged != {"bad", "bad_built_in_place", "bad_shared_b"}:
-        raise AnalysisError(f"memo-key positive control: flagged {sorted(flagged)}, expected ['bad', 'bad_built_in_place', 'bad_shared_b']")
+    if flagged != {"bad", "bad_built_in_place", "bad_shared_b", "bad_singleton", "bad_shared_between_objects"}:
+        raise AnalysisError(f"memo-key positive control: flagged {sorted(flagged)}, expected bad, bad_built_in_place, bad_shared_b, bad_singleton, bad_shared_between_objects")
+
+
+def memo_rule(ctx, rep, rule, modules, min_sites=0):
+    """MEMO-KEY over the given modules + a positive control that must be flagged on every run"""
+    prog = ctx.prog
+    positive_control(ctx)
     n = check_memo_keys(ctx, rep, rule, modules, min_sites=min_sites)
     nf = sum(len(prog.module(m).functions) + sum(len(c.all_defs) for c in prog.module(m).classes.values()) for m in modules)
     rep.ok(rule, prog.module(modules[0]).relpath if hasattr(prog.module(modules[0]), "relpath") else modules[0], f"memo-key rule: {nf} functions of {modules} scanned, {n} memo sites; positive control flagged")
